@@ -1,5 +1,6 @@
 import Compute.Lemmas.Decomp
 import Compute.Props.C01
+import Compute.Lemmas.DecompChol
 import Mathlib.Data.List.Perm.Basic
 import Mathlib.Data.Nat.Factorial.Basic
 /-
@@ -10,6 +11,51 @@ cholesky,…}` (`Model/Decomp.lean`, `Model/Solve.lean`, `Model/MatrixLinalg.lea
 set_option linter.unusedSectionVars false
 namespace Cv.C11
 open Cv Cv.LA
+
+/-! ### 1. shape of the Cholesky factor -/
+section chol
+variable {F : Type} [Field F] [LinearOrder F] [IsStrictOrderedRing F] [Transc F] [BEq F] [ReflBEq F]
+
+/-- **cholesky_shape.**  Over an ordered field with a `sqrt` that maps positives to positives:
+whenever `cholesky a` returns `l`, `a` is `n × n`, `l` has `n²` entries, is lower triangular (entries
+above the diagonal are exactly `0`) and has a positive diagonal. -/
+theorem cholesky_shape (hsqrt : ∀ x : F, 0 < x → 0 < Transc.sqrt x) (a l : List F)
+    (h : LA.cholesky a = some l) :
+    ∃ n, n * n = a.length ∧ l.length = n * n ∧
+      (∀ r c, r < n → c < n → r < c → rd l (r * n + c) = 0) ∧ ∀ r, r < n → 0 < rd l (r * n + r) := by
+  unfold LA.cholesky tryCholesky at h
+  cases hsym : LA.isSymmetric a with
+  | none => simp [hsym] at h
+  | some s =>
+    cases s with
+    | false => simp [hsym] at h
+    | true =>
+      cases hsq : isSquare a.length with
+      | none => simp [hsym, hsq] at h
+      | some n =>
+        simp only [hsym, hsq, Option.bind_eq_bind, Option.bind_some, Bool.not_true, Bool.false_eq_true, if_false,
+          Option.pure_def, Option.join_some] at h
+        exact ⟨n, isSquare_some hsq, cholLoops_shape hsqrt n a l h⟩
+
+/-- The sweep stops with `None` exactly at a diagonal cell whose pivot `a_ii − Σ_k l_ik²` is `≤ 0`
+(the F02 repair; the legacy code took the square root regardless). -/
+theorem cholesky_cell_rejects_iff (n : Nat) (a l : List F) (i j : Nat) :
+    cholCell n a l i j = none ↔
+      i = j ∧ rd a (i * n + i) - dot8 ((l.drop (j * n)).take j) ((l.drop (i * n)).take j) ≤ 0 :=
+  cholCell_none_iff n a l i j
+
+/-- `cholesky` panics on input that fails the ε-symmetry assert or is not square -/
+theorem cholesky_panics_unless_symmetric (a : List F) (h : LA.isSymmetric a ≠ some true) :
+    LA.cholesky a = none := by
+  unfold LA.cholesky tryCholesky
+  cases hsym : LA.isSymmetric a with
+  | none => rfl
+  | some s =>
+    cases s with
+    | false => rfl
+    | true => exact absurd hsym h
+
+end chol
 
 /-! ### 2. the pivot vector of `lu` is a permutation of `0..n-1`, for every input -/
 
@@ -124,6 +170,36 @@ theorem matrix_cholesky_eq_slice (m : Mat α) :
       if M.isPositiveDefinite m then (LA.cholesky m.data).bind fun l => M.new l m.nrows m.ncols else none := by
   unfold M.cholesky
   cases M.isPositiveDefinite m <;> rfl
+
+/-- `Matrix::forward_substitution` = slice `forward_substitution` on every square matrix that passes
+the Matrix-level triangularity assert (which the slice version does not have). -/
+theorem matrix_forward_eq_slice (m : Mat α) (b : List α) (hw : m.WF) (hs : m.nrows = m.ncols)
+    (ht : M.isLowerTriangular m = some true) :
+    M.forwardSubstitution m b = LA.forwardSubstitution m.data b := by
+  have hl : m.data.length = m.ncols * m.ncols := by rw [hw, hs]
+  unfold M.forwardSubstitution LA.forwardSubstitution
+  simp only [ht, hl, isSquare_sq, hs, Option.bind_eq_bind, Option.bind_some, Bool.not_true, Bool.false_eq_true,
+    if_false, Nat.lt_irrefl, Nat.sub_self, List.replicate_zero, List.append_nil, M.g]
+
+/-- same for `backward_substitution` (upper-triangular assert). -/
+theorem matrix_backward_eq_slice (m : Mat α) (b : List α) (hw : m.WF) (hs : m.nrows = m.ncols)
+    (ht : M.isUpperTriangular m = some true) :
+    M.backwardSubstitution m b = LA.backwardSubstitution m.data b := by
+  have hl : m.data.length = m.ncols * m.ncols := by rw [hw, hs]
+  unfold M.backwardSubstitution LA.backwardSubstitution
+  simp only [ht, hl, isSquare_sq, hs, Option.bind_eq_bind, Option.bind_some, Bool.not_true, Bool.false_eq_true,
+    if_false, M.g]
+  by_cases hb : b.length = m.ncols
+  · simp only [hb, ne_eq, not_true_eq_false, if_false]
+    by_cases h0 : m.ncols = 0
+    · simp [h0]
+    · simp only [h0, if_false, Nat.add_assoc]
+  · simp [hb]
+
+/-- the Matrix forms reject (panic on) a matrix that is not triangular; the slice forms have no such guard -/
+theorem matrix_forward_rejects (m : Mat α) (b : List α) (ht : M.isLowerTriangular m = some false) :
+    M.forwardSubstitution m b = none := by
+  simp [M.forwardSubstitution, ht]
 
 /-! ### 4. determinant -/
 
